@@ -13,18 +13,18 @@ import (
 )
 
 type FuncResult struct {
-	Key         string
-	Fn          *ssa.Function
-	Contract    *Contract
-	VC          *VC
-	Obls        []*Obligation
-	SpecErrors  []string
-	Unsupported []string
-	Models      []string
-	Paths       int
-	Blocks      int
-	GenS        float64
-	ResultTerms []Value
+	Key          string
+	Fn           *ssa.Function
+	Contract     *Contract
+	VC           *VC
+	Obls         []*Obligation
+	SpecErrors   []string
+	Unsupported  []string
+	Models       []string
+	Paths        int
+	Blocks       int
+	GenS         float64
+	ResultTerms  []Value
 	ErrNoTimeout *VIface
 }
 
@@ -32,7 +32,7 @@ func (e *Engine) verifyFunction(fn *ssa.Function, ct *Contract, sweepOnly bool) 
 	key := fnKey(fn, e.home)
 	vc := newVC(e, key)
 	x := &Exec{eng: e, vc: vc, top: fn, contract: ct, heapSorts: map[string]Sort{}, written: map[string]bool{},
-		nilSeen: map[string]*ssa.BasicBlock{}, arith: "math", usedModels: map[string]bool{}, poolVals: map[string]bool{}, matched: map[string]bool{}}
+		nilSeen: map[string]*ssa.BasicBlock{}, arith: "math", usedModels: map[string]bool{}, poolVals: map[string]bool{}, matched: map[string]bool{}, subLits: map[string]Term{}, boxedAddrs: map[string]VAddr{}}
 	x.assumeNil = sweepOnly && ct == nil
 	if ct != nil {
 		if v := ct.Opts["arith"]; v != "" {
